@@ -738,7 +738,8 @@ func toDate(d model.Date) types.Date {
 	} else {
 		v = types.ToDate(d.Y, time.Month(d.M), d.D)
 	}
-	if model.ValidDate(d.Y, d.M, d.D) && d.Y >= 1 && d.Y <= 9999 {
+	if model.ValidDate(d.Y, d.M, d.D) && d.Y >= 1 && d.Y <= 9999 && !zones.NoInstant(time.Local, d.Y, d.M, d.D) {
+		// (a calendar day the process zone skipped entirely is exempt)
 		if got := obsDate(v); got != d.String() {
 			dateMu.Lock()
 			dateNotes = append(dateNotes, fmt.Sprintf("%s(%s) reports %s in zone %s", how, d.String(), got, time.Local))
